@@ -457,10 +457,22 @@ int main() {
           int d = (int)N(2);
           if (c == d) skip = true;
           else {
+#if CFG_IMPL == 1
+            // The standard leaves the order in which merge visits the source unspecified; it matters only when two source
+            // elements are equivalent for the TARGET's comparator object (possible when the two objects differ in state):
+            // the reference visits the source in the order the implementation iterates it (an inline SmallSet is unordered).
+            std::vector<int> srcOrder;
+            for (auto it = S(d)->begin(); it != S(d)->end(); ++it) srcOrder.push_back(val(*it));
+#endif
             gCmp = 0;
             s.merge(*S(d));
             cmpsOp = gCmp;
-#if __cplusplus >= 201703L
+#if CFG_IMPL == 1
+            for (int v : srcOrder) {
+              auto it = R(d)->find(Elem(v));
+              if (it != R(d)->end() && r.insert(*it).second) R(d)->erase(it);
+            }
+#elif __cplusplus >= 201703L
             r.merge(*R(d));
 #else
             for (auto it = R(d)->begin(); it != R(d)->end();) {
